@@ -297,6 +297,11 @@ fn parse_stderr(err: &str) -> Vec<(usize, usize, String, Option<(usize, String)>
     out
 }
 
+thread_local! {
+    /// diagnostics whose headers could not be read at all (format changed): undecided, not wrong
+    static UNREADABLE: std::cell::RefCell<u64> = std::cell::RefCell::new(0);
+}
+
 fn check_cli(c: &Case, bin: &str, out: &mut Vec<Violation>) {
     let r = crate::c06::run_cli(bin, c.shell, c.text.as_bytes(), "-");
     let is_warn = c.class.starts_with("warn-");
@@ -306,6 +311,12 @@ fn check_cli(c: &Case, bin: &str, out: &mut Vec<Violation>) {
         return;
     }
     let hs = parse_stderr(&r.stderr);
+    if hs.is_empty() && !r.stderr.trim().is_empty() {
+        // there is a diagnostic, but not one header of the form `-:LINE:COL:kind:` can be read:
+        // the format of the diagnostics has changed and this reader cannot judge it
+        UNREADABLE.with(|u| *u.borrow_mut() += 1);
+        return;
+    }
     let src: Vec<&str> = c.text.lines().collect();
     // every header's excerpt shows the header's own line, and the underline starts at its column
     for (line, col, kind, excerpt, caret) in &hs {
@@ -389,6 +400,10 @@ pub fn run_cli(_thorough: bool) -> Report {
         rep.cases += 1;
         rep.distinct_nontrivial += 1;
         check_cli(&c, &bin, &mut rep.violations);
+    }
+    let unreadable = UNREADABLE.with(|u| *u.borrow());
+    if unreadable > 0 {
+        rep.undecided.push(format!("{unreadable} diagnostics were printed in a form this check cannot read (no `-:LINE:COL:kind:` header): the format of the diagnostics has changed"));
     }
     rep.samples.push(J::s("headers are parsed as -:LINE:COL:(error|warning): and matched with the `N | source` excerpt and the ^^^ / --- underline"));
     rep
